@@ -14,6 +14,17 @@ pub fn chunkings(fe: &Fe, bs: usize, l: usize, kind: Kind) -> Vec<Vec<P>> {
     if !fe.multi {
         return v;
     }
+    if l > 20 * bs {
+        // very long inputs: one call, and a long middle piece between two short ones
+        let g = fe.gran;
+        if l >= 3 * g + bs {
+            v.push(vec![p(g, kind), p(l - 2 * g, kind), p(g, kind)]);
+            if g == 1 {
+                v.push(vec![p(bs - 1 + (bs == 1) as usize, kind), p(l - bs - (bs == 1) as usize - 1, kind), p(2, kind)]);
+            }
+        }
+        return v;
+    }
     if l > 0 {
         v.push((0..l / fe.gran).map(|_| P { len: fe.gran, kind, single: fe.singles }).collect());
         if fe.singles {
@@ -58,6 +69,11 @@ pub fn run(ctx: &Ctx) -> Outcome {
         if bs <= 32 && !sweep {
             lens.extend(long_lengths(bs));
             lmax = lmax.max(17 * bs + 1);
+        }
+        if bs <= 16 && !sweep {
+            // very long single calls (past 32 and 64 blocks)
+            lens.extend([33 * bs - 1, 65 * bs + 1]);
+            lmax = lmax.max(65 * bs + 1);
         }
         let fes = family_frontends(cfg, fam, *dir);
         let pre = dirty(lmax);
